@@ -241,6 +241,10 @@ def run(ctx):
     check_stack_effects(ctx, prog, spec, tab, arms)
     ctx.rule("R6", "addressed positions of the data-movement ops as linear forms of the length and the popped operands (asm.yml: `0` is the top / the bottom, `starting at the index`, `returns the index to the start`); operand wiring of the memory ops")
     A.check(ctx, "R6")
+    # Select / SelectRange: the condition goes through bool_from_word (0/1 only, anything else an error) and 1 keeps the top (C09 R1)
+    from . import C09
+    from .C19 import _OnlyKeys
+    C09.run(_OnlyKeys(ctx, "R1", "R6", r"select|bool_from_word"))
     # ---- R4 ---------------------------------------------------------------
     for name in ("load", "load_range", "len", "is_empty"):
         f = prog.fn("essential_vm::memory::Memory::" + name)
